@@ -97,7 +97,7 @@ impl CertificateSigningRequestParams {
 	/// [`rustls_pemfile::csr()`]: https://docs.rs/rustls-pemfile/latest/rustls_pemfile/fn.csr.html
 	#[cfg(feature = "x509-parser")]
 	pub fn from_der(csr: &CertificateSigningRequestDer<'_>) -> Result<Self, Error> {
-		use crate::certificate::write_key_usage_bits;
+		use crate::certificate::{write_general_names, write_key_usage_bits};
 		use crate::KeyUsagePurpose;
 		use x509_parser::cri_attributes::ParsedCriAttribute;
 		use x509_parser::der_parser::asn1_rs::{Header, Length};
@@ -197,11 +197,18 @@ impl CertificateSigningRequestParams {
 						}
 					},
 					x509_parser::extensions::ParsedExtension::SubjectAlternativeName(san) => {
+						let mut names = Vec::new();
 						for name in &san.general_names {
-							params
-								.subject_alt_names
-								.push(SanType::try_from_general(name)?);
+							names.push(SanType::try_from_general(name)?);
 						}
+						// No name at all, or names that would not be written back as they were
+						// requested, cannot be issued
+						let carried =
+							yasna::construct_der(|writer| write_general_names(&names, writer));
+						if names.is_empty() || carried != ext.value {
+							return Err(Error::UnsupportedExtension);
+						}
+						params.subject_alt_names.extend(names);
 					},
 					x509_parser::extensions::ParsedExtension::ExtendedKeyUsage(eku) => {
 						if eku.any {
@@ -237,7 +244,8 @@ impl CertificateSigningRequestParams {
 								crate::ExtendedKeyUsagePurpose::OcspSigning,
 							);
 						}
-						if !eku.other.is_empty() {
+						// Purposes without an `ExtendedKeyUsagePurpose`, or none at all, cannot be issued
+						if !eku.other.is_empty() || params.extended_key_usages.is_empty() {
 							return Err(Error::UnsupportedExtension);
 						}
 					},
